@@ -403,7 +403,10 @@ func (g *gateX) run() {
 			var guards []string
 			ast.Inspect(fd.Body, func(n ast.Node) bool {
 				if is, ok := n.(*ast.IfStmt); ok {
-					guards = append(guards, c.Src(is.Cond))
+					// the lifecycle guards: conditions on the params and on the state read under the lock
+					if cond := c.Src(is.Cond); cond == "params == nil" || strings.Contains(cond, "wasInit") {
+						guards = append(guards, cond)
+					}
 				}
 				return true
 			})
